@@ -58,24 +58,24 @@ add("C14",
     "Trusts the DP longest-path reference in sim/sim/netref.go; networks are kept at <= 14 nodes so that the library's own exponential search stays cheap.",
     TECH + "; oracle = DP longest path + fresh-network twin; worker crash/hang = non-termination", "DESIGN.md 5.14")
 add("C16",
-    "Seeded search over goroutine interleavings of the parallel executor: real goroutines are parked and released one at a time at guarded yield points by a tape-driven scheduler whose own state is invisible to the race detector (//go:norace, no channels/atomics), the worker is built with -race, and after every epoch the C01/C02/C03 oracles run; a race report or an oracle failure is a violation with the tape (world + schedule) as replay." + SAMPLING,
-    "Trusts the Go race detector for accesses that are unordered by the library's own synchronisation; interleavings are explored at the granularity of the yield points (registry calls, per-offspring loop, goroutine begin/end), finer tearing is covered only through the race detector.",
+    "Seeded search over goroutine interleavings of the parallel executor: real goroutines are parked and released one at a time by a tape-driven scheduler whose own state is invisible to the race detector (//go:norace, no channels/atomics); the worker is built with -race against a scratch copy of the tree in which go/ast instrumentation puts a yield point before every statement of every function that touches shared state (atomics, locks, channels, package-level variables) and turns the parent's own blocking operations into scheduling points, so that an early return that leaves goroutines behind is reached; the context is cancelled inside reproduction in a share of the runs; after every epoch the C01/C02/C03 oracles run. A race report, goroutines outliving the call, or an oracle failure is a violation with the tape (world + schedule + fault) as replay." + SAMPLING,
+    "Trusts the Go race detector for accesses that are unordered by the library's own synchronisation (two accesses that a lock or atomic of the library happens to order are judged by the oracles only); interleavings are explored at statement granularity in instrumented functions and at the hand-placed hook points elsewhere; tearing inside one statement is covered only through the race detector.",
     TECH + "; oracle = Go race detector under the tape-driven scheduler + population oracles", "DESIGN.md 5.16", )
 add("C19",
     "Seeded search over simulated experiments (complete, solved early, cut short by an injected fault): every Experiment/Trial aggregate is recomputed from the recorded generations by a reference and every Floats accessor is evaluated on every recorded series, on tape-chosen permutations and prefixes including the empty one, against textbook definitions; panics are violations." + SAMPLING,
     "Trusts the textbook statistics in sim/sim/prop_c19.go (empirical quantile x_(ceil(np))).",
     TECH + "; oracle = textbook statistics and aggregates recomputed from the recorded generations", "DESIGN.md 5.19")
 add("C20",
-    "Fault enumeration over the trial/generation protocol: the real Experiment.Execute runs with a scripted evaluator and observer writing one sequence-numbered log under a fault script (evaluator error; cancellation at evaluator entry, by a timer at a simulated instant, at exit, inside each observer callback, at epoch.prepared, at the k-th offspring, at the speciation of the babies); the log must be a prefix of the protocol's ideal sequence, complete without fault, nothing after the stop, the injected error returned. A share of the runs sweeps every single-fault point of its shape (complete for that shape); multi-fault scripts are sampled.",
+    "Fault enumeration over the trial/generation protocol: the real Experiment.Execute runs with a scripted evaluator and observer writing one sequence-numbered log under a fault script (evaluator error; cancellation at evaluator entry, by a timer at a simulated instant, at exit, inside each observer callback, at epoch.prepared, at the k-th offspring, at the speciation of the babies; or a context deadline that expires at a simulated instant in the middle of an evaluation); the log must be a prefix of the protocol's ideal sequence, complete without fault, nothing after the stop, the injected error returned. A share of the runs sweeps every single-fault point of its shape (complete for that shape); multi-fault scripts are sampled.",
     "Trusts the protocol state machine in sim/sim/prop_c20.go; after a cancellation the observer may still learn that the next trial started (accepted as a prefix of the ideal sequence).",
     TECH + "; oracle = protocol state machine over the recorded event history; single-fault sweep per shape", "DESIGN.md 5.20", category="fault_enumeration")
 
 add("C15",
-    "Fault enumeration over the simulated disk: objects of simulated worlds and simulated experiments (evolved float64 weights plus extreme finite values, disabled / recurrent genes, nil traits, activation swarm, modules) are written and read back through in-memory readers/writers. Clean configuration: every legal reader fragmentation (1-byte, short, data together with EOF) must read back equal. Fault configurations, kept separate: the writer fails at byte k / the reader fails after k bytes; the call must return an error, a nil error is an acknowledgement and then the result must be equal. A share of the runs sweeps k over every byte of small objects and around every 4096-byte buffer boundary of large ones.",
+    "Fault enumeration over the simulated disk: objects of simulated worlds and simulated experiments (evolved float64 weights plus extreme finite values, disabled / recurrent genes, nil traits, activation swarm, modules) are written and read back through in-memory readers/writers. Clean configuration: every legal reader fragmentation (1-byte, short, data together with EOF) must read back equal. Fault configurations, kept separate: the writer fails at byte k and stays failed / fails for the one write call that reaches byte k and recovers / the reader fails after k bytes; the call must return an error, a nil error is an acknowledgement and then the result must be equal. A share of the runs sweeps k over every byte of small objects and around every 4096-byte buffer boundary of large ones.",
     "Trusts the canonical genome dump (floats as bit patterns) and the experiment snapshot in sim/sim/prop_c15.go; weights, parameters and fitness are finite; generation records carry a champion; Trial.Duration and the champion's species are not part of the saved form; nothing is demanded of reads of torn data whose write reported the error.",
     TECH + "; oracle = bit-exact canonical comparison after each round trip; write/read error acknowledgement rule under injected device faults", "DESIGN.md 5.15", category="fault_enumeration")
 
 add("C17",
-    "Seeded search over environments: the same scenario (one tape slice = start genome, options, library seed, deterministic fitness; worlds with the sequential executor and sequential Experiment.Execute runs) is executed as a reference and again immediately, after unrelated work and heap churn, under other GOMAXPROCS / GC settings, inside a fake-clock bubble with jumps of hours to years between epochs, and in a fresh child process; canonical population dumps are compared bit for bit after construction and after every epoch." + SAMPLING,
+    "Seeded search over environments: the same scenario (one tape slice = start genome, options, library seed, deterministic fitness; worlds with the sequential executor and sequential Experiment.Execute runs) is executed as a reference and again immediately, after unrelated work and heap churn, under other GOMAXPROCS / GC settings, inside a fake-clock bubble with jumps of hours to years between epochs, in a fresh child process, and from the very start genome object an earlier execution already used; canonical population dumps are compared bit for bit after construction and after every epoch." + SAMPLING,
     "Trusts the canonical population dump in sim/sim/prop_c17.go; the harness module declares go 1.23 so that rand.Seed seeds the global source under the go1.26 toolchain; a panic of the library is part of the outcome and must recur at the same step.",
     TECH + "; oracle = bit-exact comparison of canonical population dumps between a reference execution and perturbed re-executions (clock, heap, processors, prior work, fresh process)", "DESIGN.md 5.17")
